@@ -176,6 +176,10 @@ class Builder:
         # level-0 cells first, universes after (order is free in MCNP)
         deck.cells.sort(key=lambda c: (c.u is not None, c.id))
         deck.surfs.sort(key=lambda s: s.id)
+        if self.rng.random() < 0.25:
+            # the order of the cards inside a block is free in MCNP
+            self.rng.shuffle(deck.surfs)
+            deck.tags.add('cards.unordered')
         return deck
 
 
